@@ -44,6 +44,8 @@ pub struct Profile {
     pub real_tool: usize,      // % of histories whose patches come from the real `patch::make_patch`
     pub conc: usize,           // % of mid ops that are concurrent episodes (update ∥ reports, queries, checks)
     pub reissue: usize,        // % of offers that carry the content (hash, signature, download) of ANOTHER patch number
+    pub merge_bias: usize,     // % of damage ops that tamper with the event queue (hand-merged state.json), followed by an update
+    pub fail_pct: usize,       // % of conformant launches that end in a failure report or without any report
     pub min_ops: usize,
     pub max_ops: usize,
 }
@@ -64,6 +66,8 @@ pub fn profile(name: &str) -> Profile {
         real_tool: 1,
         conc: 0,
         reissue: 0,
+        merge_bias: 0,
+        fail_pct: 40,
         min_ops: 12,
         max_ops: 40,
     };
@@ -82,6 +86,8 @@ pub fn profile(name: &str) -> Profile {
         // an inconsistent server: the same patch number is re-issued with other bytes (only for properties that
         // hold for every server: C05, C06)
         "reissue" => Profile { name: "reissue", conformant: 100, damage: 0, reissue: 35, bad_download: 5, rollback: 20, net_fail: 2, release_change: 0, second_init: 0, ..base },
+        // long event queues: only a tampered state.json holds more than three events (no sequence of calls can queue them)
+        "events" => Profile { name: "events", conformant: 100, damage: 30, merge_bias: 75, fail_pct: 75, min_ops: 30, max_ops: 80, bad_download: 5, net_fail: 3, release_change: 0, rollback: 10, second_init: 0, ..base },
         "conc" => Profile { name: "conc", conformant: 100, damage: 0, conc: 55, bad_download: 8, rollback: 30, net_fail: 3, release_change: 0, second_init: 0, min_ops: 8, max_ops: 24, ..base },
         _ => base,
     }
@@ -114,6 +120,7 @@ pub struct Ctx {
     pub auto: Option<bool>,
     pub all_sigs: Vec<String>,     // every signature string used in this history
     pub all_contents: Vec<Vec<u8>>, // every artifact content that may appear on disk
+    pub merge_bias: usize,          // from the profile
 }
 
 /// The real packaging tool (zstd level 21: slow).
@@ -204,7 +211,8 @@ pub fn make_ctx(rng: &mut Rng, prof: &Profile, pk8: &[u8], pub_b64: &str, pub2_b
     };
     let app_id = ex(rng, "app-1");
     let yaml_channel = if rng.chance(40) { Some(ex(rng, "beta")) } else { None };
-    let versions = vec![ex(rng, "1.0.0+1"), ex(rng, "1.0.1+2"), ex(rng, "0.9.0+7")];
+    // incl. pairs in which one version string is a strict prefix of the other (a comparison by prefix would call them equal)
+    let versions = vec![ex(rng, "1.0.0+1"), ex(rng, "1.0.1+2"), ex(rng, "0.9.0+7"), ex(rng, "1.0.0+10"), ex(rng, "1.0.0")];
     let channels = vec![ex(rng, "staging"), ex(rng, "dev"), "stable".to_string()];
     let auto = match rng.below(4) { 0 => Some(false), 1 => Some(true), _ => None };
     let mut all_sigs = sigs.clone();
@@ -216,7 +224,7 @@ pub fn make_ctx(rng: &mut Rng, prof: &Profile, pk8: &[u8], pub_b64: &str, pub2_b
     let all_contents = targets.clone();
     Ctx {
         base, other_base, numbers, targets, patches, wrong_base_patches, key_mode: km, key, sigs,
-        app_id, yaml_channel, versions, channels, auto, all_sigs, all_contents,
+        app_id, yaml_channel, versions, channels, auto, all_sigs, all_contents, merge_bias: prof.merge_bias,
     }
 }
 
@@ -230,11 +238,17 @@ pub struct GenState {
     pub mid_left: usize,
     pub post_left: usize,
     pub conformant: bool,
+    /// further damage ops to come right away (several artifacts / files hit in one window), then a query
+    pub burst_left: usize,
+    /// artifacts still to be hit in the current burst (every artifact on disk, one after the other)
+    pub burst_targets: Vec<usize>,
+    /// the next op is an update attempt (right after the event queue was tampered with)
+    pub force_update: bool,
 }
 
 impl GenState {
     pub fn new(conformant: bool) -> GenState {
-        GenState { inited: false, started: false, version_idx: 0, launches: 0, phase: 0, mid_left: 0, post_left: 0, conformant }
+        GenState { inited: false, started: false, version_idx: 0, launches: 0, phase: 0, mid_left: 0, post_left: 0, conformant, burst_left: 0, burst_targets: Vec::new(), force_update: false }
     }
 }
 
@@ -381,7 +395,34 @@ pub fn gen_query(rng: &mut Rng) -> Op {
     }
 }
 
+/// An earlier state.json with queued events, merged into the current one (or `None` if there is none yet).
+fn gen_queue_tamper(rng: &mut Rng, runner: &Runner) -> Option<Op> {
+    let with_events: Vec<usize> = (0..runner.sj_ok.len()).filter(|&k| runner.sj_ok[k])
+        .filter(|&k| runner.sj_hist[k].as_ref()
+            .and_then(|b| serde_json::from_slice::<serde_json::Value>(b).ok())
+            .and_then(|v| v.get("queued_events").and_then(|q| q.as_array().map(|a| !a.is_empty())))
+            .unwrap_or(false)).collect();
+    if with_events.is_empty() { return None; }
+    // prefer a version whose events differ from the current ones (a queue of identical events cannot tell "the first
+    // three" from "the last three")
+    let events_of = |b: &Vec<u8>| -> Option<String> {
+        serde_json::from_slice::<serde_json::Value>(b).ok().and_then(|v| v.get("queued_events").map(|q| {
+            // patch number and message identify an event here (timestamps differ anyway)
+            q.as_array().map(|a| a.iter().map(|e| format!("{}|{}", e["patch_number"], e["message"])).collect::<Vec<_>>().join(";")).unwrap_or_default()
+        }))
+    };
+    let cur = runner.sj_hist.last().and_then(|o| o.as_ref()).and_then(events_of).unwrap_or_default();
+    if cur.is_empty() && rng.chance(85) { return None; }       // worth it when something is queued now
+    let differing: Vec<usize> = with_events.iter().copied()
+        .filter(|&k| runner.sj_hist[k].as_ref().and_then(events_of).map(|e| !cur.contains(&e) && !e.is_empty()).unwrap_or(false)).collect();
+    let k = if !differing.is_empty() && rng.chance(80) { *rng.pick(&differing) } else { *rng.pick(&with_events) };
+    Some(Op::Dmg(Damage::SjMerge(k)))
+}
+
 pub fn gen_damage(rng: &mut Rng, ctx: &Ctx, runner: &Runner) -> Op {
+    if ctx.merge_bias > 0 && rng.chance(ctx.merge_bias) {
+        if let Some(op) = gen_queue_tamper(rng, runner) { return op; }
+    }
     // bias towards numbers that exist on disk
     let on_disk: Vec<(usize, Art)> = runner
         .last_obs
@@ -422,7 +463,18 @@ pub fn gen_damage(rng: &mut Rng, ctx: &Ctx, runner: &Runner) -> Op {
         13 => Damage::SjGarbage(rng.below(GARBAGE_VARIANTS.len())),
         _ => {
             let oks: Vec<usize> = (0..runner.sj_ok.len()).filter(|&k| runner.sj_ok[k]).collect();
-            if oks.is_empty() { Damage::Nop } else if rng.chance(35) { Damage::SjFuture(*rng.pick(&oks)) } else { Damage::SjStale(*rng.pick(&oks)) }
+            if oks.is_empty() { Damage::Nop }
+            else if rng.chance(30) { Damage::SjFuture(*rng.pick(&oks)) }
+            else if rng.chance(40) {
+                // prefer earlier versions that hold queued events
+                let with_events: Vec<usize> = oks.iter().copied()
+                    .filter(|&k| runner.sj_hist[k].as_ref()
+                        .and_then(|b| serde_json::from_slice::<serde_json::Value>(b).ok())
+                        .and_then(|v| v.get("queued_events").and_then(|q| q.as_array().map(|a| !a.is_empty())))
+                        .unwrap_or(false)).collect();
+                if with_events.is_empty() { Damage::SjStale(*rng.pick(&oks)) } else { Damage::SjMerge(*rng.pick(&with_events)) }
+            }
+            else { Damage::SjStale(*rng.pick(&oks)) }
         }
     };
     Op::Dmg(d)
@@ -462,6 +514,54 @@ pub fn gen_init(rng: &mut Rng, prof: &Profile, ctx: &Ctx, gs: &mut GenState, sec
 
 /// Next operation of a history.
 pub fn gen_op(rng: &mut Rng, prof: &Profile, ctx: &Ctx, gs: &mut GenState, runner: &Runner) -> Op {
+    // damage comes in bursts: what needs two artifacts (or an artifact and a state file) hit in the same window —
+    // e.g. the selection AND its fallback target — is otherwise vanishingly rare
+    if gs.force_update {
+        gs.force_update = false;
+        return gen_update(rng, prof, ctx);
+    }
+    if let Some(n) = gs.burst_targets.pop() {
+        if gs.burst_targets.is_empty() { gs.burst_left = 1; }
+        return gen_art_damage(rng, runner, n);
+    }
+    if gs.burst_left > 0 {
+        gs.burst_left -= 1;
+        return if gs.burst_left == 0 { gen_query(rng) } else { gen_damage(rng, ctx, runner) };
+    }
+    let op = gen_op_inner(rng, prof, ctx, gs, runner);
+    if matches!(op, Op::Dmg(Damage::SjMerge(_))) {
+        gs.force_update = gs.inited && rng.chance(70);
+        return op;
+    }
+    if matches!(op, Op::Dmg(_)) && rng.chance(35) {
+        if rng.chance(50) {
+            // every artifact on disk is hit, then a query
+            gs.burst_targets = runner.last_obs.as_ref().and_then(|o| o.pd.as_ref().map(|p| p.0.iter().map(|(n, _)| *n).collect())).unwrap_or_default();
+            if gs.burst_targets.is_empty() { gs.burst_left = 1; }
+        } else {
+            gs.burst_left = 2 + rng.below(3);
+        }
+    }
+    op
+}
+
+/// Outside damage to the artifact of patch `n`: deleted, cut, grown, emptied, or its directory removed.
+fn gen_art_damage(rng: &mut Rng, runner: &Runner, n: usize) -> Op {
+    let cur: Vec<u8> = runner.last_obs.as_ref()
+        .and_then(|o| o.pd.as_ref())
+        .and_then(|p| p.0.iter().find(|(k, _)| *k == n).map(|(_, a)| match a { Art::File(b) => b.clone(), _ => Vec::new() }))
+        .unwrap_or_default();
+    Op::Dmg(match rng.below(6) {
+        0 => Damage::ArtDel(n),
+        1 => Damage::ArtSet(n, cur[..rng.below(cur.len() + 1).min(cur.len().saturating_sub(1))].to_vec()),
+        2 => { let mut c = cur.clone(); let k = 1 + rng.below(8); c.extend(rng.bytes(k)); Damage::ArtSet(n, c) }
+        3 => Damage::ArtSet(n, Vec::new()),
+        4 => Damage::DirDel(n),
+        _ => { let mut c = cur.clone(); if !c.is_empty() { let k = rng.below(c.len()); c[k] ^= 0x40; } Damage::ArtSet(n, c) }
+    })
+}
+
+fn gen_op_inner(rng: &mut Rng, prof: &Profile, ctx: &Ctx, gs: &mut GenState, runner: &Runner) -> Op {
     if !gs.conformant {
         // arbitrary call order
         return match rng.below(100) {
@@ -501,11 +601,10 @@ pub fn gen_op(rng: &mut Rng, prof: &Profile, ctx: &Ctx, gs: &mut GenState, runne
             4 => {
                 gs.phase = 5;
                 gs.post_left = rng.below(4);
-                match rng.below(10) {
-                    0..=5 => return Op::Success,
-                    6 | 7 => return Op::Failure,
-                    _ => {} // no report: the process will die mid-boot
-                }
+                let r = rng.below(100);
+                if r >= prof.fail_pct { return Op::Success; }
+                if r < prof.fail_pct / 2 { return Op::Failure; }
+                // else no report: the process will die mid-boot
             }
             5 => {
                 if gs.post_left == 0 { gs.phase = 6; continue; }
